@@ -247,4 +247,29 @@ def run(ctx):
                     names - {"Err", "Located", "None", "Some"}), where_of(am))
     ctx.floor("C03-literal-immutable", 6)
 
+    # ------------------------------------------------------------------ C03-binding-scope
+    # "the one binding that lexical scoping designates": let / let* are written in the bundled grammar; which binding a name in an
+    # initialiser or in a closure made there designates depends on the scopes their expansions create (the scope analysis of C05,
+    # re-run here: an initialiser outside the scope of its own variable, the body inside the scope of all of them, let* left to right)
+    ctx.rule("C03-binding-scope", "let / let* create the scopes R7RS gives them: an initialiser (and a closure made in it) is outside the "
+                                  "scope of the variable it initialises — and of later ones —, the body inside the scope of all (scope "
+                                  "analysis of the expansions in grammar.sld, shared with C05)")
+    try:
+        from scm import derived as _derived
+        from .ctx import Ctx as _Ctx3
+        sub3 = _Ctx3("C05", ctx.tier, ctx.seed)
+        sub3._fb = ctx._fb
+        _derived.c05_rules(sub3)
+        lifted = [r for r in sub3.reports if r["rule"] == "C05-scope"]
+        n_scope = sub3.count("C05-scope")
+        ctx.inst("C03-binding-scope", "let-forms", {"scope_instances": n_scope, "violations": len(lifted)})
+        ctx.oblige(not lifted)
+        for r in lifted:
+            ctx.report("C03-binding-scope", r["key"].split("/", 1)[1], "a binding form does not create the scopes lexical scoping rests on: " + r["msg"]
+                       + " — a closure or an assignment written there refers to another binding than the one R7RS designates", r["where"])
+    except ImportError:
+        ctx.note("Engine C not available: C03-binding-scope not run")
+    except Exception as e:
+        ctx.undecided("C03-binding-scope", "analysis", "the scope analysis of the bundled grammar could not be run (%s: %s)" % (type(e).__name__, str(e)[:120]))
+
     return EXPLANATION, NOT_DECIDED
